@@ -1,11 +1,12 @@
 //@ unit dt_normalize_instant
 //@ props C09
 //@ kind W
-//@ def all YB=1073741824
+//@ def quick YB=65536
+//@ def thorough YB=16777216
 //@ cbmc all --unwind 3 --unwinding-assertions
 //@ entry h_dt_normalize_instant
-//@ note W: complete over the validated domain of the date/time parsers (what validateDateTime() lets through: month 1..12, 1 <= day <= days of the month, hour 0..24 with 24 only as 24:00, minute 0..59, time zone 00:00..14:00, sign + or -) for every year with |year| <= 2^30 (year +- 1 must not overflow). On this domain the carry loop runs at most one full iteration: it is unwound 3 times with the unwinding assertion on, which also proves that bound.
-//@ note proved: normalize() preserves the instant -- the result is the local date/time shifted by exactly the time-zone offset -- UTC = local - offset for '+hh:mm', local + offset for '-hh:mm' (XML Schema Part 2, 3.2.7.3) -- stated with the calendar successor/predecessor of a day (spec_next_day / spec_prev_day, written from the calendar rules; |offset| <= 14:00 so at most one day boundary is crossed); seconds untouched. Year numbering is the plain integer arithmetic of Appendix E (no special case for the missing year 0 of XSD 1.0; see report).
+//@ note W: complete over the validated domain of the date/time parsers (what validateDateTime() lets through: month 1..12, 1 <= day <= days of the month, hour 0..24 with 24 only as 24:00, minute 0..59, time zone 00:00..14:00, sign + or -) for every year with |year| <= YB (quick 2^16, thorough 2^24: stated bound, SAT cost of the 32-bit remainder circuits of the leap-year rule). On this domain the carry loop runs at most one full iteration: it is unwound 3 times with the unwinding assertion on, which also proves that bound.
+//@ note proved: normalize() preserves the instant -- the result is the local date/time shifted by exactly the time-zone offset -- UTC = local - offset for '+hh:mm', local + offset for '-hh:mm' (XML Schema Part 2, 3.2.7.3) -- stated with the calendar successor/predecessor of a day (spec_next_day / spec_prev_day, written from the calendar rules; |offset| <= 14:00 so at most one day boundary is crossed); seconds untouched. Year numbering is the plain integer arithmetic of Appendix E: the carry runs through year 0, which XSD 1.0 does not have (0001-01-01T00:00:00+01:00 and -0001-12-31T23:00:00Z denote the same instant under XSD 1.0 but normalise to years 0 and -1); XSD 1.1 has a year 0, so this is recorded here as an observation only, not as a finding.
 //@ note div() is modelled per ISO C99 7.20.6.2 (spec/gregorian.h)
 #define VERIF_DEFINE_GHOSTS
 #define SPEC_NEED_DIV_MODEL
